@@ -420,3 +420,5 @@ _app("C03", "text", " concat_multi_inputs and _link_1to1 of ops.py are ALSO tran
      "exactly on an initialised dimension mismatch (C03_generated_concat_is_model, C03_generated_concat_insertion, C03_generated_link_1to1_is_model).")
 _app("C03", "note", " Tie (T), second unit: list(<set>) and sorted(edges) are arbitrary permutations; exact for pairwise distinct nodes; link / merge / Model.__init__ stay on tie (H).")
 _app("C05", "note", " Since the Q-to-R bridge of the sub-model sender runner was appended, the cone of props/C05.v imports Reals: the timing / sub-model theorems proper are still closed under the global context, the bridge theorems carry the two Reals axioms (sig_forall_dec, functional_extensionality_dep).")
+_app("C03", "text", " merge of ops.py is translated too (py2coq_ops v2 over base/PyColl4.v): the generated merge hands Model(...) / update_graph exactly the node and edge sets of the model's merge, "
+     "compared as sets, with its ValueError / TypeError cases (C03_generated_merge_*); link and the Model constructor / update_graph remain on hand model + correspondence.")
